@@ -264,20 +264,45 @@ class TxInfo:
 
     def check_sig(self, sig: bytes, pubkey: bytes, script_code: bytes, sv: str) -> bool:
         """GenericTransactionSignatureChecker::CheckSig"""
+        ans, digest = self._check_sig(sig, pubkey, script_code, sv)
+        XCHECK[(sig, pubkey, digest)] = ans   # re-computed in Lean by cross_check_oracle()
+        return ans
+
+    def _check_sig(self, sig, pubkey, script_code, sv):
         pt = parse_pubkey(pubkey)
         if pt is None or len(sig) == 0:
-            return False
+            return False, b""
         rs = lax_der(sig[:-1])
         if rs is None:
-            return False
+            return False, b""
         r, s = rs
-        if r == 0 or s == 0:
-            return False
         h = self.sighash(script_code, sig[-1], sv)
+        digest = h.to_bytes(32, "big")
+        if r == 0 or s == 0:
+            return False, digest
         try:
-            return bool(G.verify(pt, h, (r, s)))
+            return bool(G.verify(pt, h, (r, s))), digest
         except Exception as e:  # noqa: BLE001
             raise Infra("sig-oracle: ECDSA verify raised %r" % e)
+
+
+XCHECK: dict = {}
+XCHECK_DONE = [0, 0]  # answers cross-checked, of which true
+
+
+def cross_check_oracle():
+    """every answer the signature oracle gave, computed again by the Lean spec (Spec/Secp256k1.lean: libsecp256k1 key parsing, lax DER,
+    ECDSA) from the same signature hash; a disagreement means the oracle cannot be trusted: infrastructure error"""
+    if not XCHECK:
+        return
+    items = list(XCHECK.items())
+    XCHECK.clear()
+    outs = lib.run_driver(["spec_checksig %s %s %s" % (hx(k[0]), hx(k[1]), hx(k[2])) for k, _ in items])
+    for (k, v), o in zip(items, outs):
+        if o != "ok %d" % (1 if v else 0):
+            raise Infra("signature oracle and Lean ECDSA disagree on sig=%s pubkey=%s digest=%s: oracle %s, Lean `%s`" % (hx(k[0]), hx(k[1]), hx(k[2]), v, o))
+        XCHECK_DONE[0] += 1
+        XCHECK_DONE[1] += 1 if v else 0
 
 
 # ------------------------------------------------------------------ driver round trips
